@@ -299,7 +299,40 @@ pub(crate) enum Item<V> {
         key: u64,
         conflict: u64,
     },
-    Wait(WaitGroup),
+    Wait(WaitSignal),
+}
+
+/// Carries the wait group of a `wait()` call through the insert buffer.  The waiter is released
+/// when the guard goes away, however that happens: `complete()` after the processor (or the
+/// cleaner of a concurrent `clear()`) has dealt with everything queued before it, or a plain drop
+/// when the item is discarded because the processor has stopped.  Only `complete()` marks the
+/// barrier as honoured.
+pub(crate) struct WaitSignal {
+    wg: WaitGroup,
+    honoured: Arc<AtomicBool>,
+}
+
+impl WaitSignal {
+    fn new(wg: WaitGroup) -> (Self, Arc<AtomicBool>) {
+        let honoured = Arc::new(AtomicBool::new(false));
+        (
+            Self {
+                wg,
+                honoured: honoured.clone(),
+            },
+            honoured,
+        )
+    }
+
+    pub(crate) fn complete(self) {
+        self.honoured.store(true, Ordering::SeqCst);
+    }
+}
+
+impl Drop for WaitSignal {
+    fn drop(&mut self) {
+        self.wg.done();
+    }
 }
 
 impl<V> Item<V> {
@@ -558,11 +591,18 @@ where
         }
 
         let wg = WaitGroup::new();
-        let wait_item = Item::Wait(wg.add(1));
-        match self.insert_buf_tx.try_send(wait_item) {
+        let (signal, honoured) = WaitSignal::new(wg.add(1));
+        match self.insert_buf_tx.try_send(Item::Wait(signal)) {
             Ok(_) => {
                 wg.wait().await;
-                Ok(())
+                if honoured.load(Ordering::SeqCst) {
+                    Ok(())
+                } else {
+                    // the processor stopped before it reached the item
+                    Err(CacheError::SendError(
+                        "cache set buf sender: the cache is being closed".to_string(),
+                    ))
+                }
             }
             Err(e) => Err(CacheError::SendError(format!(
                 "cache set buf sender: {}",
@@ -733,6 +773,8 @@ where
         self.insert_buf_rx.close();
         self.clear_rx.close();
         self.stop_rx.close();
+        // Nothing can be queued any more: discard what is left so that pending waiters are released.
+        while self.insert_buf_rx.try_recv().is_ok() {}
         Ok(())
     }
 
